@@ -139,6 +139,16 @@ fn note_coverage<F: Flav>(rep: &mut Report, pre: &Obs, op: Op, res: &Res, used: 
     if maxpar >= 3 {
         rep.count("steps_with_parallel_ge3");
     }
+    let maxdeg = pre.n.iter().map(|x| x.out.len().max(x.inn.len())).max().unwrap_or(0);
+    if maxdeg >= 17 {
+        rep.count("steps_with_list_ge17");
+    }
+    if maxdeg >= 33 {
+        rep.count("steps_with_list_ge33");
+    }
+    if maxdeg >= 65 {
+        rep.count("steps_with_list_ge65");
+    }
     let selfloop = |u: usize| pre.n[u].out.iter().any(|(p, _)| *p as usize == u);
     match op {
         Op::Disconnect(a, k) => {
@@ -237,7 +247,11 @@ pub fn run_enum<F: Flav>(rep: &mut Report, cfg: &SeqCfg) {
     rep.count("enumerations_completed");
 }
 
-fn random_op(rng: &mut Rng, n: usize, hot: usize) -> Op {
+/// Workload profiles of the random histories.
+///  0 balanced: all operations, frequent isolates (degrees stay small);
+///  1 growth: mostly connects, rare isolates: adjacency lists grow to dozens of entries with many parallel edges;
+///  2 hub: one node takes part in most operations (lists of 30-100 entries), is isolated now and then and rebuilt.
+fn random_op(rng: &mut Rng, n: usize, hot: usize, profile: u64) -> Op {
     let pickk = |rng: &mut Rng| -> K {
         if rng.chance(6, 10) {
             rng.below(hot.min(n)) as K
@@ -245,19 +259,38 @@ fn random_op(rng: &mut Rng, n: usize, hot: usize) -> Op {
             rng.below(n) as K
         }
     };
-    let a = pickk(rng);
-    let b = if rng.chance(1, 8) { a } else { pickk(rng) };
-    match rng.below(100) {
-        0..=39 => Op::Connect(a, b),
-        40..=54 => Op::TryConnect(a, b),
-        55..=86 => {
-            if rng.chance(1, 30) {
-                Op::Disconnect(a, n as K)
-            } else {
-                Op::Disconnect(a, b)
-            }
+    let (mut a, mut b) = (pickk(rng), 0);
+    b = if rng.chance(1, 8) { a } else { pickk(rng) };
+    if profile == 2 && rng.chance(8, 10) {
+        // the hub is node 0
+        if rng.chance(1, 2) {
+            a = 0;
+            b = rng.below(n) as K;
+        } else {
+            b = 0;
+            a = rng.below(n) as K;
         }
-        _ => Op::Isolate(a),
+    }
+    let r = rng.below(1000);
+    let (c, t, d) = match profile {
+        0 => (400, 550, 870),
+        1 => (600, 690, 985),
+        _ => (620, 700, 985),
+    };
+    if r < c {
+        Op::Connect(a, b)
+    } else if r < t {
+        Op::TryConnect(a, b)
+    } else if r < d {
+        if rng.chance(1, 30) {
+            Op::Disconnect(a, n as K)
+        } else {
+            Op::Disconnect(a, b)
+        }
+    } else if profile == 2 && rng.chance(1, 2) {
+        Op::Isolate(0)
+    } else {
+        Op::Isolate(a)
     }
 }
 
@@ -291,11 +324,13 @@ fn run_history<F: Flav>(prop: &str, n: usize, hist: &[(Op, (u32, u32))], rep: Op
 
 pub fn run_random<F: Flav>(rep: &mut Report, cfg: &SeqCfg, rng: &mut Rng) {
     for hi in 0..cfg.random_hist {
-        let n = 2 + rng.below(7);
+        let profile = hi % 3;
+        let n = if profile == 2 { 3 + rng.below(10) } else { 2 + rng.below(7) };
         let hot = 2 + rng.below(2);
         let mut hist = vec![];
+        rep.count(&format!("profile.{}", ["balanced", "growth", "hub"][profile as usize]));
         for _ in 0..cfg.hist_len {
-            let op = random_op(rng, n, hot);
+            let op = random_op(rng, n, hot, profile);
             let prov = (rng.below(16) as u32, rng.below(7) as u32);
             hist.push((op, prov));
         }
